@@ -167,7 +167,7 @@ class C01(Check):
         sp = [Space(f"chains K<={K}", {"K": K, "modes": ["call", "str", "ast"], "datasets": ["untyped", "typed"],
                                        "terminals": [None, "AsAwkwardArray", "AsROOTTTree"]}, cases, runner="run_chain"),
               Space("branching", {"shape": "parent + two children, all executed"}, branch_cases, runner="run_branch")]
-        nmax = 4 if Q else 5
+        nmax = 4 if Q else 6
         sp.append(Space(f"enumerated-bodies<={nmax}", {"grammar": "E1 full grammar (method forms) over the event parameter",
                                                        "size": nmax, "names": "every admissible naming from {e, j}",
                                                        "modes": ["call", "str", "ast"]},
